@@ -18,8 +18,8 @@ T = {
  "C01b": ("C01", "deposit amount >= 2^255", "C01: bridgestore monitor (independent getLeafValue + contract algorithm), amounts 2^255 and 2^256-1"),
  "C14a": ("C14", "halted syncer + a reorg whose transaction fails after the block delete", "C14: monitor 'a reorg that failed and removed nothing cleared the halted condition' (reorg faults)"),
  "C14b": ("C14", "halt on an announced-root mismatch in the L1 info tree syncer, then event-less blocks", "C14: l1infostore monitor 'a halted L1 info syncer accepted a block'"),
- "C16a": ("C16", "several L1 leaves between two oracle rounds, only the latest injected (FEP downloader)", None),
- "C16b": ("C16", "L2 insertion read before the node's own L1 syncer indexed the leaf (PP downloader)", None),
+ "C16a": ("C16", "several L1 leaves between two oracle rounds, only the latest injected (FEP downloader)", "C16: gersync FEP worlds, monitor 'finds nothing although an injected GER … existed at the last poll'"),
+ "C16b": ("C16", "L2 insertion read before the node's own L1 syncer indexed the leaf (PP downloader)", "C16: gersync monitor (insertions whose L1 leaf lookup fails 1-3 times first)"),
  "C11a": ("C11", ">=3 info updates in a block whose first index is odd, fault after them, retry without restart", "C11: l1infostore monitor vs the GER-contract reference (blocks with 3-5 updates + wrong V2 announcement => rollback, re-processing in the same process)"),
  "C11b": ("C11", "a recurring rollup exit-root value", "C11: l1infostore monitor (leaf / proof under every recorded rollup exit root; exit roots drawn from a small pool)"),
  "C07a": ("C07", "block with >=2 leaves, first index odd, fault inside the second AddLeaf's store statements, retry in the same process", "C07: bridgestore twin comparison after fault+retry (SQL-trigger faults at every write statement)"),
